@@ -108,6 +108,15 @@ def corrupt_all(ctx, c):
             arr = np.array(c.var_mats[n], dtype=float).copy()
             arr[ixs[0], 0] = val
             one(ctx, c, "variance", cls, f"{n}_var[{ixs[0]},0]={val} (array)", kw={n + "_var": arr})
+            # the same unusable value produced by a callable noise model (everywhere / at one reference location)
+            one(ctx, c, "variance", cls, f"{n}_var=callable returning {val} everywhere", kw={n + "_var": (lambda s, val=val: s * 0.0 + val)})
+
+            def spot(s, val=val, n=n):
+                out = s * 0.0 + float(np.mean(c.var_mats[n]))
+                vals = np.array(out.values, dtype=float)
+                vals[ixs[0], 0] = val
+                return out.copy(data=vals)
+            one(ctx, c, "variance", cls, f"{n}_var=callable giving {val} at [{ixs[0]},0]", kw={n + "_var": spot})
     # options
     short = (np.zeros(c.nx - 1), np.zeros(c.nx - 1))
     one(ctx, c, "fix_alpha_short", "pos", "fix_alpha does not cover every location", kw={"fix_alpha": short})
